@@ -150,6 +150,7 @@ theorem localRet_armCode (arm : List Simple) (r : Ret) (h : fenceArm arm = true)
     | storeOldPlus k o => simp [fenceArm, Simple.isFence] at h
     | storeOldMinus k o => simp [fenceArm, Simple.isFence] at h
     | storeLit v o => simp [fenceArm, Simple.isFence] at h
+    | debugLoad o => simp [fenceArm, Simple.isFence] at h
     | rmwSub n o => simp [fenceArm, Simple.isFence] at h
     | rmwAdd n o => simp [fenceArm, Simple.isFence] at h
 
@@ -168,6 +169,7 @@ theorem localAcq_armCode (arm : List Simple) (r : Ret) (h : fenceArm arm = true)
     | storeOldPlus k o => simp [fenceArm, Simple.isFence] at h
     | storeOldMinus k o => simp [fenceArm, Simple.isFence] at h
     | storeLit v o => simp [fenceArm, Simple.isFence] at h
+    | debugLoad o => simp [fenceArm, Simple.isFence] at h
     | rmwSub n o => simp [fenceArm, Simple.isFence] at h
     | rmwAdd n o => simp [fenceArm, Simple.isFence] at h
 
